@@ -724,7 +724,7 @@ Fixpoint parse_at (fuel : nat) (tb : bool) (lv : nat) (ts : toks) {struct fuel} 
       end
   end.
 
-Definition fuel_for (ts : toks) : nat := (16 * List.length ts + 40)%nat.
+Definition fuel_for (ts : toks) : nat := (64 * List.length ts + 80)%nat.
 
 Definition parse_expr (ts : toks) : pres expr :=
   let f := fuel_for ts in parse_at f false 1%nat ts.
